@@ -54,7 +54,8 @@ def ds_case(draw, layouts=("station", "grid"), one_site=False, whole_dirs=False,
         s["amp"] = draw(st.sampled_from([1e-4, 0.02, 1.0, 40.0]))
         specs.append(s)
     return dict(f=f, dg=dg, layout=layout, nt=nt, npos=npos, nlat=nlat, nlon=nlon, specs=specs, winds=draw(st.booleans()), gz=draw(st.booleans()), ntime=draw(st.sampled_from([None, None, 1, 2, 3])),
-                as_site=draw(st.booleans()), packed=draw(st.booleans()), lon0=draw(st.sampled_from([150.25, -70.5, 359.0, 0.125])), minutes=draw(st.sampled_from([60, 180, 30])))
+                as_site=draw(st.booleans()), packed=draw(st.booleans()), lon0=draw(st.sampled_from([150.25, -70.5, 359.0, 0.125])), minutes=draw(st.sampled_from([60, 180, 30])),
+                perm=draw(st.one_of(st.none(), st.none(), st.permutations(list(range(5 if layout == "grid" else 4))))))
 
 
 def build(case, allow_nan=True):
@@ -93,6 +94,10 @@ def build(case, allow_nan=True):
         ds["wspd"] = (lead, np.round(3.0 + 0.37 * np.arange(n), 2).reshape(shape))
         ds["wdir"] = (lead, np.round((20.0 + 33.0 * np.arange(n)) % 360.0).reshape(shape))
         ds["dpt"] = (lead, np.round(10.0 + 5.5 * np.arange(n), 2).reshape(shape))
+    if case.get("perm"):
+        # the convention names the dimensions, it does not order them: the same dataset with its dimensions stored in another order
+        dims = list(ds.efth.dims)
+        ds = ds.transpose(*[dims[i] for i in case["perm"]])
     return ds
 
 
@@ -266,7 +271,7 @@ def check_ww3(case, ctx):
         got.close()
         compare(ds, got, lambda a: 1e-14 * np.abs(a) + 1e-300, "WW3 netCDF", lonlat_tol=1e-9)
         for k in ("wspd", "wdir"):
-            if k in ds and (k not in got or not np.allclose(got[k].transpose("time", "site").values, ds[k].values, rtol=1e-12)):
+            if k in ds and (k not in got or not np.allclose(got[k].transpose("time", "site").values, ds[k].transpose("time", "site").values, rtol=1e-12)):
                 raise Violation("winds", "%s changed through the WW3 round trip" % k)
     finally:
         shutil.rmtree(w, ignore_errors=True)
